@@ -93,26 +93,19 @@ func (in *Interp) bigIntrinsic(name string, args []V) (V, bool) {
 		if a.T == nil {
 			return in.cInt(uint64(int64(a.C.Sign())), 64, true), true
 		}
-		if in.truth(in.mkBool(in.ts.Op("=", 0, a.T, in.ts.IntU(0)))) {
-			return in.cInt(0, 64, true), true
-		}
-		if in.truth(in.mkBool(in.ts.Op(">", 0, a.T, in.ts.IntU(0)))) {
-			return in.cInt(1, 64, true), true
-		}
-		return in.cInt(^uint64(0), 64, true), true
+		z := in.ts.IntU(0)
+		m1 := in.ts.IntC(big.NewInt(-1))
+		t := in.ts.Op("ite", -1, in.ts.Op("<", 0, a.T, z), m1, in.ts.Op("ite", -1, in.ts.Op("=", 0, a.T, z), z, in.ts.IntU(1)))
+		return in.symI(t, 64, true, 0, nil), true
 	case "(*math/big.Int).Cmp":
 		a, b := in.bigOf(args[0]), in.bigOf(args[1])
 		if a.T == nil && b.T == nil {
 			return in.cInt(uint64(int64(a.C.Cmp(b.C))), 64, true), true
 		}
 		at, bt := in.bigTerm(a), in.bigTerm(b)
-		if in.truth(in.mkBool(in.ts.Op("<", 0, at, bt))) {
-			return in.cInt(^uint64(0), 64, true), true
-		}
-		if in.truth(in.mkBool(in.ts.Op("=", 0, at, bt))) {
-			return in.cInt(0, 64, true), true
-		}
-		return in.cInt(1, 64, true), true
+		m1 := in.ts.IntC(big.NewInt(-1))
+		t := in.ts.Op("ite", -1, in.ts.Op("<", 0, at, bt), m1, in.ts.Op("ite", -1, in.ts.Op("=", 0, at, bt), in.ts.IntU(0), in.ts.IntU(1)))
+		return in.symI(t, 64, true, 0, nil), true
 	case "(*math/big.Int).IsUint64":
 		a := in.bigOf(args[0])
 		if a.T == nil {
